@@ -312,8 +312,6 @@ def r9_no_pack_id_is_special(cx):
                 oy = b.origins(y)
                 if ("param", 2) in b.origins(x) and oy and all(o[0] == "const" for o in oy):
                     bad.append("line %s: pack id compared with a constant" % t.get("ln"))
-    if n < 1:
-        raise AnchorLost("Container::get_pack makes no comparison at all")
     cx.ob("R9", "R9/get_pack/no-pack-id-is-special", not bad, f, "the pack id is compared with the table size only, never with a constant (%s)" % (bad or "none"))
 
 
